@@ -430,3 +430,35 @@ func TestExpiredCandidateSessionRejectedOnUse(t *testing.T) {
 		t.Fatal("expired session should be removed during use")
 	}
 }
+
+func TestFailedSetLeavesCandidateUntouched(t *testing.T) {
+	cd := newTestConfigManager(t)
+	cd.registry.MustRegister(&noopHandler{path: "interfaces.<*>.mtu"})
+
+	sessionID, err := cd.CreateCandidateSession()
+	if err != nil {
+		t.Fatalf("CreateCandidateSession failed: %v", err)
+	}
+
+	if err := cd.Set(sessionID, "interfaces.eth7.mtu", "not-a-number"); err == nil {
+		t.Fatal("expected Set to fail for an unconvertible value")
+	}
+	if err := cd.Set(sessionID, "interfaces.eth7.mtu", nil); err == nil {
+		t.Fatal("expected Set to fail for a nil value")
+	}
+
+	sess := cd.sessions[sessionID]
+	if _, exists := sess.config.Interfaces["eth7"]; exists {
+		t.Fatal("a failed Set must not create interfaces.eth7 in the candidate")
+	}
+	if len(sess.changes) != 0 {
+		t.Fatalf("a failed Set must not record a change, got %d", len(sess.changes))
+	}
+
+	if err := cd.Set(sessionID, "interfaces.eth7.mtu", "9000"); err != nil {
+		t.Fatalf("Set with a convertible value failed: %v", err)
+	}
+	if got := sess.config.Interfaces["eth7"].MTU; got != 9000 {
+		t.Fatalf("expected mtu 9000, got %d", got)
+	}
+}
